@@ -107,6 +107,9 @@ func convertToVector(v any) ([]float32, error) {
 
 // Check if a given map is compatible with the index schema
 func (s IndexSchema) CheckCompatibleMap(pointMap PointAsMap) error {
+	if err := pointMap.CheckJSONCompatible(); err != nil {
+		return err
+	}
 	// We will go through each index field, check if the map has them, is of
 	// right type and any extra checks needed
 	// ---------------------------
